@@ -13,9 +13,24 @@ D17 == Corpus("D17")
 NR == Len(R17)
 ND == Len(D17)
 \* the shared pool: every rule paired with every data value
-PoolDef == [q \in 1..(NR * ND) |-> [rule |-> R17[((q - 1) \div ND) + 1], data |-> D17[((q - 1) % ND) + 1]]]
+\* a deep rule: DeepLevels nested {"+":[X,1]} around {"var":"a"} (JSON depth 2*DeepLevels+2 <= 128). Too deep for the
+\* AJ wire format, so it is exported as JSON TEXT built alongside the value by the same recursion.
+DeepLevels == 55
+S_a17 == <<97>>
+RECURSIVE DeepVal(_), DeepTxt(_)
+DeepVal(n) == IF n = 0 THEN VarOf(S_a17) ELSE Op(K_add, <<DeepVal(n - 1), IntV(1)>>)
+DeepTxt(n) == IF n = 0 THEN "{\"var\":\"a\"}" ELSE "{\"+\":[" \o DeepTxt(n - 1) \o ",1]}"
+\* the shared pool: every rule paired with every data value, then the deep rule paired with every data value
+PoolDef == [q \in 1..(NR * ND + ND) |->
+              IF q <= NR * ND THEN [rule |-> R17[((q - 1) \div ND) + 1], data |-> D17[((q - 1) % ND) + 1]]
+              ELSE [rule |-> DeepVal(DeepLevels), data |-> D17[q - NR * ND]]]
 Ix(r, d) == (r - 1) * ND + d
-ThreadsDef == IF IOEnv.VERIF_FAMILY = "T3" THEN {1, 2, 3} ELSE {1, 2}
+DeepIx(d) == NR * ND + d
+BigT == IOEnv.VERIF_FAMILY \in {"T8", "T16"}
+ThreadsDef == CASE IOEnv.VERIF_FAMILY = "T3" -> {1, 2, 3}
+                [] IOEnv.VERIF_FAMILY = "T8" -> 1..8
+                [] IOEnv.VERIF_FAMILY = "T16" -> 1..16
+                [] OTHER -> {1, 2}
 
 VARIABLES Programs, pool, pc, st, pend, results, stdout, mem
 C == INSTANCE Calls WITH Threads <- ThreadsDef, Pool <- PoolDef
@@ -25,9 +40,18 @@ vars == <<Programs, pool, pc, st, pend, results, stdout, mem>>
 ProgSet2 == { <<Ix(2, 1)>>, <<Ix(3, 1), Ix(3, 3)>>, <<Ix(2, 1), Ix(2, 2)>>, <<Ix(5, 1), Ix(5, 2)>>, <<Ix(4, 3), Ix(4, 1)>>,
               <<Ix(6, 1), Ix(2, 1)>>, <<Ix(1, 2), Ix(3, 2)>>, <<Ix(7, 1), Ix(7, 3)>>, <<Ix(3, 1), Ix(3, 1)>> }
 ProgSet3 == { <<Ix(3, 1)>>, <<Ix(2, 2)>>, <<Ix(5, 3)>>, <<Ix(6, 1)>> }
-Init == /\ Programs \in (IF IOEnv.VERIF_FAMILY = "T3" THEN [ThreadsDef -> ProgSet3] ELSE [ThreadsDef -> ProgSet2])
+\* rule 9..12: index / substr / cat on the whole data; data 4..6: equal-length strings; rule 13: a 55-level arithmetic chain
+Aliasing == { <<Ix(9, 4), Ix(9, 5), Ix(9, 6), Ix(9, 4)>>, <<Ix(10, 5), Ix(10, 4)>>, <<Ix(11, 4), Ix(11, 5), Ix(12, 6), Ix(12, 4)>>, <<Ix(1, 1), Ix(1, 2), Ix(1, 3)>> }
+DeepProgs == { <<DeepIx(1), DeepIx(2), DeepIx(1)>>, <<DeepIx(2), DeepIx(1)>>, <<DeepIx(1), Ix(9, 4), DeepIx(1)>> }
+\* big thread counts: the program assignments are enumerated (every thread the same kind of program, rotated),
+\* their interleavings are NOT explored by TLC (exponential) but sampled on real threads
+BigAssignments == {[t \in ThreadsDef |-> p] : p \in DeepProgs \cup Aliasing}
+                  \cup {[t \in ThreadsDef |-> IF t % 2 = 0 THEN p ELSE q] : p \in DeepProgs, q \in Aliasing}
+Init == /\ Programs \in (CASE IOEnv.VERIF_FAMILY = "T3" -> [ThreadsDef -> ProgSet3]
+                           [] BigT -> BigAssignments
+                           [] OTHER -> [ThreadsDef -> ProgSet2 \cup Aliasing])
         /\ C!CInit
-Next == C!CNext
+Next == IF BigT THEN UNCHANGED vars ELSE C!CNext
 Spec == Init /\ [][Next]_vars
 FairSpec == Spec /\ WF_vars(\E t \in ThreadsDef : C!Begin(t) \/ C!Emit(t) \/ C!End(t))
 
@@ -43,10 +67,12 @@ ResultsFunctionOfProgramsOnly == C!AllDone => \A t \in ThreadsDef : results[t] =
 
 \* ---- export: one history per program assignment (the initial states)
 IsInitial == \A t \in ThreadsDef : pc[t] = 1 /\ st[t] = "idle" /\ results[t] = <<>>
-ThreadSeq == IF IOEnv.VERIF_FAMILY = "T3" THEN <<1, 2, 3>> ELSE <<1, 2>>
+ThreadSeq == [q \in 1..Cardinality(ThreadsDef) |-> q]
 ExportHistories ==
   IsInitial /\ stdout = <<>> =>
-    ExportLine(ToJson([pool |-> PoolDef,
+    ExportLine(ToJson([pool |-> [q \in 1..Len(PoolDef) |->
+                                   IF q <= NR * ND THEN [rule |-> PoolDef[q].rule, rule_text |-> "", data |-> PoolDef[q].data]
+                                   ELSE [rule |-> Null, rule_text |-> DeepTxt(DeepLevels), data |-> PoolDef[q].data]],
                        threads |-> [q \in DOMAIN ThreadSeq |-> Programs[ThreadSeq[q]]],
                        exp |-> [q \in 1..Len(PoolDef) |-> LET e == Eval(PoolDef[q].rule, PoolDef[q].data) IN [ok |-> e.ok, v |-> e.v, log |-> e.log]],
                        sc |-> <<"C17">>]) \o "\n")
